@@ -60,6 +60,10 @@ func cursorPaths(P *Program, fa *FA, spec cursorSpec) (bad []cursorFinding, pair
 		} else if arg == ssa.Value(spec.Buf) {
 			cc.Whole = true
 		}
+		// the slice must extend to the end of the buffer parameter, whatever re-slicing happened on the way
+		if bd := fa.sliceDesc(spec.Buf); bd != nil && d.Len != nil && !d.Len.equal(bd.Len.sub(d.Off)) {
+			cc.Capped = true
+		}
 		var rv ssa.Value
 		if ri < 0 {
 			rv = c
